@@ -484,6 +484,42 @@ theorem phaseIndex_cases (st : St) (t : Ticket) :
   · rw [if_neg hm]
     exact ⟨rfl, rfl, fun _ => rfl, fun j _ => Or.inl rfl⟩
 
+/-- the index update of phase B, byte by byte: outside the `Modified` field and the `Recommend` byte of any
+entry nothing changes - neither in the addressed entry nor in any other one. -/
+theorem phaseIndex_frame (st : St) (t : Ticket) (q : Nat)
+    (hq : ¬(28 ≤ q % 128 ∧ q % 128 < 32) ∧ q % 128 ≠ 33) :
+    (phaseIndex st t).1.dir.bytes[q]? = st.dir.bytes[q]? := by
+  unfold phaseIndex
+  simp only []
+  by_cases hm : t.mtime > 0
+  · rw [if_pos hm]
+    generalize scoreUpdate t.ctype (toInt8 (t.copy.getD offRecommend 0)) = u
+    rcases modifyDirLite_cases st.dir (t.idx : Int) (modArgs (field t.copy offFilename lenFilename) t.mtime u)
+      with h | h | ⟨k, _, _, hle, _, h⟩
+    · rw [h]
+    · rw [h]
+    · rw [h]
+      simp only []
+      have hrl : (record st.dir.bytes dirSz k).length = 128 := length_record_of_le _ _ _ hle
+      have hlen := modifyRecord_length (record st.dir.bytes dirSz k)
+        (modArgs (field t.copy offFilename lenFilename) t.mtime u) hrl
+      rw [dirSz_eq] at hle
+      by_cases hk : q / 128 = k
+      · have hqk : q = k * dirSz + q % 128 := by rw [dirSz_eq]; omega
+        rw [hqk, getElem?_writeAt_in _ _ _ _ (by omega) (by rw [hlen, dirSz_eq]; omega)]
+        have : k * dirSz + q % 128 - k * dirSz = q % 128 := by omega
+        rw [this, modifyRecord_modArgs_getElem? _ _ _ _ hrl (q % 128) (by omega)]
+        have c1 : ¬(28 ≤ q % 128 ∧ q % 128 < 32 ∧ t.mtime > 0) := by omega
+        rw [if_neg c1, if_neg hq.2, getElem?_record, if_pos (by rw [dirSz_eq]; omega)]
+      · have hne : q / dirSz ≠ k := by rw [dirSz_eq]; exact hk
+        rcases outside_of_div_ne hne with h1 | h1
+        · by_cases hql : q < st.dir.bytes.length
+          · exact getElem?_writeAt_before _ _ _ _ h1 hql
+          · rw [dirSz_eq] at h1; omega
+        · apply getElem?_writeAt_after
+          rw [hlen]; rw [Nat.add_mul] at h1; rw [dirSz_eq] at h1 ⊢; omega
+  · rw [if_neg hm]
+
 theorem phaseWrite_dir {st st1 : St} {t : Ticket} (h : phaseWrite st t = .ok st1) : st1.dir = st.dir := by
   unfold phaseWrite at h
   simp only [] at h
